@@ -59,7 +59,7 @@ theorem raire_true (asn : Nat → Nat → Nat → Nat → D) (C : Contest α) (c
     ∀ a ∈ as, holds cvrs a ∧ Fam asn C cvrs a := by
   intro a ha
   have hne : as ≠ [] := fun h0 => by rw [h0] at ha; cases ha
-  have := (compute_sound asn C cvrs winner hC hn h hne).1 a ha
+  have := ((compute_spec asn C cvrs winner hC hn h).2 hne).1 a ha
   exact ⟨this.2.2.2.2.1, this⟩
 
 /-- **C04, sufficiency.** If the result is non-empty, every complete elimination order that ends in a
@@ -68,7 +68,32 @@ theorem raire_sufficient (asn : Nat → Nat → Nat → Nat → D) (C : Contest 
     (winner : α) (hC : C.candidates.Nodup) (hn : 2 ≤ C.candidates.length) (fuel : Nat)
     (as : List (Assertion α D)) (h : computeRaireAssertions asn C cvrs winner fuel = Res.ok as)
     (hne : as ≠ []) : ∀ π, Alt C.candidates winner π → ∃ a ∈ as, contradicts a π :=
-  (compute_sound asn C cvrs winner hC hn h hne).2.1
+  ((compute_spec asn C cvrs winner hC hn h).2 hne).2.1
+
+/-- **C04, "empty exactly when".** The result is the empty list exactly when no set of true NEB/NEN
+assertions (all ordered pairs, all eliminated sets) excludes every alternative winner. -/
+theorem raire_empty_iff (asn : Nat → Nat → Nat → Nat → D) (C : Contest α) (cvrs : List (Option (Ballot α)))
+    (winner : α) (hC : C.candidates.Nodup) (hn : 2 ≤ C.candidates.length) (fuel : Nat)
+    (as : List (Assertion α D)) (h : computeRaireAssertions asn C cvrs winner fuel = Res.ok as) :
+    as = [] ↔ ¬ ∃ S : List (Assertion α D), (∀ a ∈ S, Fam asn C cvrs a) ∧ Sufficient C.candidates winner S := by
+  obtain ⟨h1, h2⟩ := compute_spec asn C cvrs winner hC hn h
+  constructor
+  · intro h0 ⟨S, hS1, hS2⟩
+    obtain ⟨π, hπ, hbad⟩ := h1 h0
+    obtain ⟨a, ha, hc⟩ := hS2 π hπ
+    exact hbad a (hS1 a ha) hc
+  · intro himp
+    apply Classical.byContradiction
+    intro hne
+    obtain ⟨g1, g2, _⟩ := h2 hne
+    exact himp ⟨as, g1, g2⟩
+
+/-- the witness behind an empty result: a complete alternative order that no true assertion contradicts -/
+theorem raire_empty_witness (asn : Nat → Nat → Nat → Nat → D) (C : Contest α) (cvrs : List (Option (Ballot α)))
+    (winner : α) (hC : C.candidates.Nodup) (hn : 2 ≤ C.candidates.length) (fuel : Nat)
+    (h : computeRaireAssertions asn C cvrs winner fuel = Res.ok []) :
+    ∃ π, Alt C.candidates winner π ∧ ∀ a : Assertion α D, Fam asn C cvrs a → ¬ contradicts a π :=
+  (compute_spec asn C cvrs winner hC hn h).1 rfl
 
 /-- **C04, "in particular".** If the reported winner is not the unique possible IRV winner — some possible
 IRV count of the (well-formed) ballots ends in another candidate — the generator returns the empty list. -/
@@ -79,22 +104,16 @@ theorem wrong_winner_empty (asn : Nat → Nat → Nat → Nat → D) (C : Contes
     (hv : validIRV (cvrs.filterMap id) π) : as = [] := by
   apply Classical.byContradiction
   intro hne
-  obtain ⟨h1, h2, _⟩ := compute_sound asn C cvrs winner hC hn h hne
+  obtain ⟨h1, h2, _⟩ := (compute_spec asn C cvrs winner hC hn h).2 hne
   obtain ⟨a, ha, hc⟩ := h2 π hπ
   exact valid_not_contradicted_fam asn C cvrs hwf π (hπ.1.nodup_iff.2 hC) hv a (h1 a ha) hc
 
-/-- **C04, "empty exactly when", one direction.** If some set of true assertions excludes every
-alternative winner... the contrapositive: a non-empty result is itself such a set; so when no such set
-exists the result is empty. -/
-theorem raire_empty_of_impossible (asn : Nat → Nat → Nat → Nat → D) (C : Contest α)
-    (cvrs : List (Option (Ballot α))) (winner : α) (hC : C.candidates.Nodup) (hn : 2 ≤ C.candidates.length)
-    (fuel : Nat) (as : List (Assertion α D)) (h : computeRaireAssertions asn C cvrs winner fuel = Res.ok as)
-    (himp : ¬ ∃ S : List (Assertion α D), (∀ a ∈ S, Fam asn C cvrs a) ∧ Sufficient C.candidates winner S) :
-    as = [] := by
-  apply Classical.byContradiction
-  intro hne
-  obtain ⟨h1, h2, _⟩ := compute_sound asn C cvrs winner hC hn h hne
-  exact himp ⟨as, h1, h2⟩
+/-- the subsumption tests are sound (each of the four NEB branches and the NEN suffix test): an
+assertion that subsumes `o` contradicts every order ending in a tail `o` was recorded to rule out -/
+theorem subsumes_sound (cands : List α) (f o : Assertion α D) (hg : Good cands f)
+    (hfro : ∀ r ∈ f.rulesOut, CoversTail cands f r) (horo : ∀ r ∈ o.rulesOut, CoversTail cands o r)
+    (h : subsumes f o = true) : o.kind = .nen ∧ ∀ t ∈ o.rulesOut, CoversTail cands f t :=
+  Raire.subsumes_sound hg hfro horo h
 
 /-! ### Non-vacuity: a concrete contest (tests of the statements' hypotheses, not of the theorems)
 
